@@ -1,4 +1,4 @@
-"""R-C12-13 -- the INP write / read round trip of a rich fixture model, run by the in-house interpreter (T3, bounded to the fixture).
+"""R-C12-17 -- the INP write / read round trip of a rich fixture model, run by the in-house interpreter (T3, bounded to the fixture).
 
 The fixture model of R-C13-10 (sa/props/c13_fixture.py: every element kind, curves of every type, sources, all option groups, seven simple controls,
 four rules with AND / OR / ELSE / priorities) is built through the public API by the repository's real constructors, written with InpFile.write in a
@@ -192,24 +192,24 @@ def round_trip_rules(repo, chk, combos):
             d1b = _norm_json(to_dict(wn))
         except ProgramError as e:
             if isinstance(e.exc, NameError):
-                raise ExtractError("R-C12-13 [%s]: the interpreted INP code needs a name the world does not provide: %s (line %s)" % (tag, e, e.lineno))
-            chk.bad("R-C12-13", "the fixture model survives write -> read -> write -> read [%s]" % tag, loc(wfn), "the repository's own INP code (interpreted) raised on the fixture model",
+                raise ExtractError("R-C12-17 [%s]: the interpreted INP code needs a name the world does not provide: %s (line %s)" % (tag, e, e.lineno))
+            chk.bad("R-C12-17", "the fixture model survives write -> read -> write -> read [%s]" % tag, loc(wfn), "the repository's own INP code (interpreted) raised on the fixture model",
                     found="%s (line %s)" % (e, e.lineno))
             continue
         n += 1
         sizes = {k: len(v) for k, v in d2.items() if isinstance(v, list)}
         if sizes.get("nodes", 0) < 8 or sizes.get("links", 0) < 13:
-            chk.bad("R-C12-13", "the model read back has all elements [%s]" % tag, loc(rfn), found=sizes)
+            chk.bad("R-C12-17", "the model read back has all elements [%s]" % tag, loc(rfn), found=sizes)
             continue
         v1, v2, v3 = inp_view(d1, version), inp_view(d2, version), inp_view(d3, version)
         for sec in ("nodes", "links", "patterns", "curves", "sources", "options", "controls"):
             df = view_diff(v1[sec], v2[sec], "/" + sec)
-            chk.expect(not df, "R-C12-13", "%s of the model read back equal the original to file precision [%s]" % (sec, tag), loc(wfn),
+            chk.expect(not df, "R-C12-17", "%s of the model read back equal the original to file precision [%s]" % (sec, tag), loc(wfn),
                        "fixture model built through the public API, InpFile.write and InpFile.read run by the in-house interpreter; compared through the part of the model "
                        "dictionary the INP format carries", expected="no difference", found=df[:5])
         df = view_diff(v2, v3, "")
-        chk.expect(not df, "R-C12-13", "a second write / read cycle changes nothing further [%s]" % tag, loc(wfn), found=df[:5])
+        chk.expect(not df, "R-C12-17", "a second write / read cycle changes nothing further [%s]" % tag, loc(wfn), found=df[:5])
         df = view_diff(d1, d1b, "")
-        chk.expect(not df, "R-C12-13", "writing the model does not change it [%s]" % tag, loc(wfn), found=df[:5])
+        chk.expect(not df, "R-C12-17", "writing the model does not change it [%s]" % tag, loc(wfn), found=df[:5])
     if n < len(combos) and not chk.violations():
-        raise ExtractError("R-C12-13: only %d of %d unit / version combinations were evaluated" % (n, len(combos)))
+        raise ExtractError("R-C12-17: only %d of %d unit / version combinations were evaluated" % (n, len(combos)))
